@@ -554,6 +554,88 @@ func cmdImport(args []string) int {
 		}
 	}
 
+	// a file in which keys without any history stand among keys with history: every key with history is imported
+	{
+		base, err := newBaseDir()
+		if err != nil {
+			return 2
+		}
+		f := &jFile{Version: "5", GVR: testGVR}
+		var withHistory [][48]byte
+		for i := 0; i < 14; i++ {
+			var k [48]byte
+			copy(k[:], rng.Bytes(48))
+			e := jEntry{Key: fmt.Sprintf("0x%x", k[:])}
+			if i%4 != 3 {
+				e.Blocks = []jNum{{Text: "200"}}
+				e.Atts = []jAtt{{Src: "40", Tgt: "50"}}
+				withHistory = append(withHistory, k)
+			}
+			f.Data = append(f.Data, e)
+		}
+		fpath := filepath.Join(base, "import.json")
+		if err := os.WriteFile(fpath, f.JSON(), 0o600); err != nil {
+			return 2
+		}
+		code, _ := bin.run(base, "--import-slashing-protection", "--slashing-protection-file", fpath, "--genesis-validators-root", testGVR)
+		if err := withRules(ctx, base, func(r *standardrules.Service) error {
+			exp, err := r.ExportSlashingProtection(ctx)
+			if err != nil {
+				return err
+			}
+			missing := 0
+			for _, k := range withHistory {
+				if e := exp[k]; code == 0 && (e == nil || e.HighestProposedSlot < 200 || e.HighestAttestedSourceEpoch < 40 || e.HighestAttestedTargetEpoch < 50) {
+					missing++
+				}
+			}
+			if missing > 0 {
+				monFail = append(monFail, fmt.Sprintf("import of a file with %d keys, %d of them with history (slot 200, 40->50) and the others without any: exit %d, but %d of the keys with history have no such record afterwards", len(f.Data), len(withHistory), code, missing))
+			}
+			stats["historyless.keys-checked"] = len(withHistory)
+			return nil
+		}); err != nil {
+			return 2
+		}
+		os.RemoveAll(base)
+	}
+	// records in the format of early releases in the database: they count for the "never lower" rule like any other
+	{
+		base, err := newBaseDir()
+		if err != nil {
+			return 2
+		}
+		var k [48]byte
+		copy(k[:], rng.Bytes(48))
+		if err := withRules(ctx, base, func(r *standardrules.Service) error {
+			if err := r.VerifPutRaw(ctx, recKey(k[:], 2), gobBytes(&signBeaconAttestationState{SourceEpoch: 400, TargetEpoch: 500})); err != nil {
+				return err
+			}
+			return r.VerifPutRaw(ctx, recKey(k[:], 3), gobBytes(&signBeaconProposalState{Slot: 5000}))
+		}); err != nil {
+			return 2
+		}
+		old := &jFile{Version: "5", GVR: testGVR, Data: []jEntry{{Key: fmt.Sprintf("0x%x", k[:]), Blocks: []jNum{{Text: "100"}}, Atts: []jAtt{{Src: "40", Tgt: "50"}}}}}
+		fpath := filepath.Join(base, "import.json")
+		if err := os.WriteFile(fpath, old.JSON(), 0o600); err != nil {
+			return 2
+		}
+		code, _ := bin.run(base, "--import-slashing-protection", "--slashing-protection-file", fpath, "--genesis-validators-root", testGVR)
+		if err := withRules(ctx, base, func(r *standardrules.Service) error {
+			exp, err := r.ExportSlashingProtection(ctx)
+			if err != nil {
+				return err
+			}
+			if e := exp[k]; e == nil || e.HighestProposedSlot < 5000 || e.HighestAttestedSourceEpoch < 400 || e.HighestAttestedTargetEpoch < 500 {
+				monFail = append(monFail, fmt.Sprintf("database with records in the legacy format (slot 5000, 400->500); import of an older file (slot 100, 40->50) exited %d and left %+v: the import lowered the protection", code, e))
+			}
+			stats["legacy-database.imports"]++
+			return nil
+		}); err != nil {
+			return 2
+		}
+		os.RemoveAll(base)
+	}
 	// a database of more than a hundred records (the import reads every existing record in order to keep the
 	// higher of old and new): an older file for a key that comes early in key order must lower nothing
 	{
